@@ -767,9 +767,8 @@ fn spawn_response_loop(mut reader: BufReader<TcpStream>, inner: std::sync::Weak<
         loop {
             let response = match read_message(&mut reader) {
                 Ok(message) => message,
-                Err(RepeError::Io(ref io_err)) if io_err.kind() == ErrorKind::Interrupted => {
-                    continue;
-                }
+                // `read_message` is not resumable: after any error the stream may be
+                // positioned inside a frame, so the connection ends here.
                 Err(err) => {
                     fail_all_pending(&inner, err);
                     break;
